@@ -276,10 +276,18 @@ def _fold_accumulations(F, b, tb):
     el = ("some", ("call", "<core::slice::iter::Iter<'a, T> as core::iter::traits::iterator::Iterator>::next", (("var", "iter", x),)))
     for f in reversed(maps):
         fid = f[1] if isinstance(f, tuple) and f and f[0] in ("fn", "closure") else None
-        summ = summary(F, fid, 1) if fid and f[0] == "fn" else None
-        if summ is None:
+        if fid and f[0] == "fn":
+            summ = summary(F, fid, 1)
+            el = subst(summ, [el]) if summ is not None else None
+        elif fid and f[0] == "closure":
+            # a capture-free closure `|disposal| …`: parameter 0 is the (empty) environment, parameter 1 the element
+            from mir import closure_summary
+            summ = closure_summary(F, fid, 1)
+            el = subst(summ, [("tuple", ()), el]) if summ is not None else None
+        else:
+            el = None
+        if el is None:
             return None
-        el = subst(summ, [el])
     off = 1 if sb.kind == "closure" else 0      # closures take their environment first
     stb = Terms(F, sb, inline_depth=0)
     acc = stb.local(off + 1)
